@@ -331,4 +331,107 @@ theorem left_right_unique_flat_ok (first second result : List Int) (inv : Int) (
   · have hne : (first.length != result.length) = true := by simp [hlen]
     simp [hne] at h
 
+/-! ### ordered_inner_map_both_unique (no `return`: the result is the two map arrays) -/
+
+namespace FIB
+
+abbrev St := ordered_inner_map_both_unique.St
+
+abbrev mk (left right b2 b3 : List Int) (i j m : Int) : St := ⟨left, right, b2, b3, i, j, m⟩
+
+def R (left right l2i r2i : List Int) (s : St) (t : IS) : Prop :=
+  ∃ b2 b3, s = mk left right b2 b3 t.i t.j t.lo.length ∧ b2.length = l2i.length ∧ b3.length = r2i.length ∧
+    t.ro.length = t.lo.length ∧ b2.take t.lo.length = t.lo ∧ b2.drop t.lo.length = l2i.drop t.lo.length ∧
+    b3.take t.lo.length = t.ro ∧ b3.drop t.lo.length = r2i.drop t.lo.length
+
+theorem guard_eq (left right l2i r2i : List Int) (s : St) (t : IS) (h : R left right l2i r2i s t) :
+    ordered_inner_map_both_unique.guard_L1 s = innerGuard left right t := by
+  obtain ⟨b2, b3, rfl, _⟩ := h
+  have h0 : ordered_inner_map_both_unique.guard_L1 (mk left right b2 b3 t.i t.j t.lo.length)
+      = (decide ((t.i : Int) < (left.length : Int)) && decide ((t.j : Int) < (right.length : Int))) := rfl
+  rw [h0]
+  simp only [innerGuard]
+  rw [Bool.eq_iff_iff]
+  simp only [Bool.and_eq_true, decide_eq_true_eq]
+  omega
+
+theorem body_sim (left right l2i r2i : List Int) (s : St) (t t' : IS) (h : R left right l2i r2i s t)
+    (hb : innerBody false false left right (min l2i.length r2i.length) t = .ok t') :
+    ∃ s', ordered_inner_map_both_unique.body_L1 s = .ok s' ∧ R left right l2i r2i s' t' := by
+  obtain ⟨b2, b3, rfl, hl2, hl3, hro, ht2, hd2, ht3, hd3⟩ := h
+  simp only [innerBody, getE, runLen, Bool.false_eq_true, if_false] at hb
+  have e_i : (t.i : Int) + 1 = ((t.i + 1 : Nat) : Int) := by omega
+  have e_j : (t.j : Int) + 1 = ((t.j + 1 : Nat) : Int) := by omega
+  have e_m : (t.lo.length : Int) + 1 = ((t.lo.length + 1 : Nat) : Int) := by omega
+  cases ha : left[t.i]? with
+  | none => simp [ha] at hb
+  | some a =>
+    cases hbb : right[t.j]? with
+    | none => simp [ha, hbb] at hb
+    | some b =>
+      simp only [ha, hbb] at hb
+      simp only [ordered_inner_map_both_unique.body_L1, idxE_nat, getE, ha, hbb, bindE_ok]
+      by_cases hlt : a < b
+      · simp only [hlt, if_true, decide_true, Except.ok.injEq] at hb ⊢
+        subst hb
+        exact ⟨mk left right b2 b3 ((t.i + 1 : Nat) : Int) t.j t.lo.length, by simp only [e_i],
+          b2, b3, rfl, hl2, hl3, hro, ht2, hd2, ht3, hd3⟩
+      · simp only [hlt, if_false, decide_false, Bool.false_eq_true] at hb ⊢
+        by_cases hgt : a > b
+        · simp only [hgt, if_true, decide_true, Except.ok.injEq] at hb ⊢
+          subst hb
+          exact ⟨mk left right b2 b3 t.i ((t.j + 1 : Nat) : Int) t.lo.length, by simp only [e_j],
+            b2, b3, rfl, hl2, hl3, hro, ht2, hd2, ht3, hd3⟩
+        · simp only [hgt, if_false, decide_false, Bool.false_eq_true, Nat.mul_one] at hb ⊢
+          by_cases hc : t.lo.length + 1 ≤ min l2i.length r2i.length
+          · simp only [hc, if_true, Except.ok.injEq] at hb
+            subst hb
+            have hc2 : t.lo.length < l2i.length := by omega
+            have hc3 : t.lo.length < r2i.length := by omega
+            obtain ⟨p1, p2, p3, p4⟩ := store_at (t.i : Int) hl2 hc2 rfl ht2 hd2
+            obtain ⟨q1, q2, q3, q4⟩ := store_at (t.j : Int) hl3 hc3 hro ht3 hd3
+            have hbl : blockL 1 t.i 1 = [(t.i : Int)] := by simp [blockL]
+            have hbr : blockR t.j 1 1 = [(t.j : Int)] := by simp [blockR]
+            refine ⟨mk left right (b2.set t.lo.length (t.i : Int)) (b3.set t.lo.length (t.j : Int)) ((t.i + 1 : Nat) : Int)
+              ((t.j + 1 : Nat) : Int) ((t.lo.length + 1 : Nat) : Int), ?_, _, _, ?_, p1, q1, ?_, ?_, ?_, ?_, ?_⟩
+            · simp only [setIdxE_nat, setE, show t.lo.length < b2.length by omega, show t.lo.length < b3.length by omega,
+                if_true, bindE_ok, e_i, e_j, e_m]
+            · simp [hbl]
+            · simp [hbl, hbr, hro]
+            · rw [hbl]; simpa using p3
+            · rw [hbl]; simpa using p4
+            · rw [hbl, hbr]; simpa using q3
+            · rw [hbl]; simpa using q4
+          · simp [hc] at hb
+
+end FIB
+
+/-- every `.ok` run of the model is a run of the translated kernel, for every fuel ≥ len(left) + len(right) -/
+theorem inner_map_both_unique_flat_ok (left right l2i r2i : List Int) (r : List Int × List Int) (fuel : Nat)
+    (hf : left.length + right.length ≤ fuel) (h : orderedInnerMap false false left right l2i r2i = .ok r) :
+    ordered_inner_map_both_unique.run left right l2i r2i fuel = .ok r := by
+  unfold orderedInnerMap at h
+  cases h1 : whileE (innerGuard left right) (innerBody false false left right (min l2i.length r2i.length))
+      (left.length + right.length) {} with
+  | error e => rw [h1] at h; simp at h
+  | ok t1 =>
+    rw [h1] at h
+    simp only [Except.ok.injEq] at h
+    subst h
+    have h1' := whileE_mono _ _ _ _ _ h1 fuel hf
+    obtain ⟨s1, hw1, hR1⟩ := whileE_sim (FIB.R left right l2i r2i)
+      ordered_inner_map_both_unique.guard_L1 ordered_inner_map_both_unique.body_L1
+      (innerGuard left right) (innerBody false false left right (min l2i.length r2i.length))
+      (FIB.guard_eq left right l2i r2i) (fun s t t' hR _ hb => FIB.body_sim left right l2i r2i s t t' hR hb)
+      fuel (FIB.mk left right l2i r2i 0 0 0) {} t1 ⟨l2i, r2i, rfl, rfl, rfl, rfl, rfl, rfl, rfl, rfl⟩ h1'
+    obtain ⟨b2, b3, rfl, _, _, hro, ht2, hd2, ht3, hd3⟩ := hR1
+    unfold ordered_inner_map_both_unique.run
+    have hw1' : whileE ordered_inner_map_both_unique.guard_L1 ordered_inner_map_both_unique.body_L1 fuel
+        (FIB.mk left right l2i r2i 0 0 0) = .ok (FIB.mk left right b2 b3 t1.i t1.j t1.lo.length) := hw1
+    simp only [FIB.mk] at hw1'
+    simp only [hw1', bindE_ok]
+    rw [← final_array rfl ht2 hd2]
+    have h3 := final_array hro ht3 hd3 (buf := b3) (result := r2i)
+    rw [← h3]
+
 end Exetera.GenK
